@@ -3,6 +3,7 @@
 package main
 
 import (
+	"encoding/hex"
 	"fmt"
 	"sort"
 	"strings"
@@ -49,6 +50,43 @@ func genKey(scheme string) hotstuff.PrivateKey {
 }
 
 var keyCache = map[string][]hotstuff.PrivateKey{}
+
+// presetBLSKeys makes the given private keys (hex, big-endian) the keys of replicas 1.. of later BLS
+// environments of this process.
+func presetBLSKeys(hexKeys []string) bool {
+	var ks []hotstuff.PrivateKey
+	for _, h := range hexKeys {
+		b, err := hex.DecodeString(h)
+		if err != nil || len(b) == 0 {
+			return false
+		}
+		k := &crypto.BLS12PrivateKey{}
+		k.FromBytes(b)
+		ks = append(ks, k)
+	}
+	if savedBLSKeys == nil {
+		savedBLSKeys = keyCache[crypto.NameBLS12]
+		if savedBLSKeys == nil {
+			savedBLSKeys = []hotstuff.PrivateKey{}
+		}
+	}
+	if len(savedBLSKeys) > len(ks) {
+		ks = append(ks, savedBLSKeys[len(ks):]...)
+	}
+	keyCache[crypto.NameBLS12] = ks
+	return true
+}
+
+// savedBLSKeys holds the process's own random BLS keys while preset keys are in force.
+var savedBLSKeys []hotstuff.PrivateKey
+
+// restoreBLSKeys ends the effect of presetBLSKeys (called by a cfg line without keys=).
+func restoreBLSKeys() {
+	if savedBLSKeys != nil {
+		keyCache[crypto.NameBLS12] = savedBLSKeys
+		savedBLSKeys = nil
+	}
+}
 
 // newCryptoEnv builds a fresh environment (fresh configs and Base instances) for n replicas;
 // private keys are memoised per scheme for the life of the process (key generation is the slow part).
